@@ -306,7 +306,9 @@ def main(tier, seed):
     chk.assumptions = ["after relabel_nodes labels are compared up to renaming (pre-order follows sibling order)", "with a finite time limit the recorded iterations must be a prefix of the multiples of thin",
                        "trace part is deviation-bounded, not exhaustive over random outcomes"]
     searches = [dict(n=3, dims=1, grid=3, kind="generic", depth=(5 if tier == "quick" else 12), cap=None),
-                dict(n=4, dims=1, grid=3, kind="generic", depth=(3 if tier == "quick" else 4), cap=None, outlier=0.2)]
+                dict(n=4, dims=1, grid=3, kind="generic", depth=(3 if tier == "quick" else 4), cap=None, outlier=0.2),
+                # complete trees over 4 data points after one (two) sampler moves: subtree cycles that shrink a 3-clone subtree leave gaps in the graph positions
+                dict(n=4, dims=1, grid=3, kind="generic", depth=(5 if tier == "quick" else 6), cap=None, full_only=True)]
     for r in searches:
         c06.run_one(chk, r, seed, pid="C15", make_inv=make_invariant)
     items = trace_items(tier)
